@@ -295,7 +295,7 @@ fn behaviour_n<const N: usize>(c: &mut Ctx) {
 }
 
 pub fn run(c: &mut Ctx) {
-    c.note("rule", json!("every serializable type of both crates (all N of the tier) and the codec wrappers: honest round trip, then every atom x every substitution of the invariant table (invalid everywhere: off-curve, out-of-subgroup, flag patterns, scalar >= q; forbidden by position: identity, zero, close tag, unmatched lock/secret/index, balance >= 2^63; valid alternatives that must still round trip). Distinct = distinct (type, atom path, substitution class)."));
+    c.note("rule", json!("every serializable type of both crates (all N of the tier) and the codec wrappers: honest round trip, then every atom x every substitution of the invariant table (invalid everywhere: off-curve, out-of-subgroup, flag patterns, scalar >= q; forbidden by position: identity, zero, close tag, unmatched lock/secret/index, balance >= 2^63; valid alternatives that must still round trip). Distinct = distinct (type, atom path, substitution class). Added later: length prefixes, RevocationLock::from_bytes."));
     let m = match types::default_merchant(c) {
         Ok(m) => m,
         Err(e) => return c.inconclusive(&e),
